@@ -38,3 +38,27 @@ func init() {
 		Rule:        "explicit-state breadth-first search over API histories: events NewLeaf(tracked|untracked), Scale(i), Mul(i<=j), Concat(i,j), Gt(i<=j), BackPropagate(i), ResetGradContext(i,true|false) over a pool of <=5 tensors to depth 5 (thorough: pool 5 depth 7 and pool 6 depth 6); enabledness = the property's own preconditions (a),(b); every transition replays the history on FRESH real tensors and compares EVERY tensor with the model (forward values, Gradient nil-ness and accumulated values, tracked/spent flags and back-edge presence through the verif hook, gradient tensors untracked, behavioural spent probe). States deduplicated on the full abstract model state (creation kind, operands, tracked, spent, has-gradient, accumulation count per tensor). Every transition counts as non-trivial (all are executed and compared).",
 		Assumptions: []string{"dedup key contains every field the real transition functions read; conformance of those fields is itself checked in every visited state", "comparison of a spent tensor is not generated (statement silent)", "pool/depth bound"}})
 }
+
+func init() {
+	register(&Check{ID: "C19", Fn: checkC19, Shards: 1, Procs: 16,
+		Rule:        "explicit-state BFS over histories of Accumulate (every valid batch of size 1..2 (thorough 3) over labels {0,1,2.5,-1} per position), 6 kinds of invalid call (nil/nil, nil prediction, nil target, rank 0, rank 2, mismatched lengths) and Result, to depth 5 (thorough 7); every transition executed on a fresh real Accuracy by replaying the history; oracle after every transition: Result == matched/total of the model, in [0,1], hook counters == model, rejected call leaves counters and Result unchanged; dedup on (correct,total). Plus partition invariance: every label-pair sequence up to length 5 (6) x all 2^(n-1) consecutive partitions.",
+		Assumptions: []string{"dedup on (total, correct) is sound because the hook shows these two integers are the whole state of the metric", "label alphabet {0,1,2.5,-1}"}})
+}
+
+func init() {
+	register(&Check{ID: "C12", Fn: checkC12,
+		Rule:        "bounded-exhaustive over value classes: predictions from {-1e6,-1,0,1e-13,1e-12,3e-12,0.3,0.5,1-3e-12,1-1e-12,1-1e-13,1,2,1e6} x targets from {-1,0,0.3,1,2,1e6}: ALL tuples for tensors of <=2 elements (MSE/BCE batch 1-2, CE [1,1],[1,2],[2,1]); for larger batches/classes every pair of (prediction,target) classes at every pair of positions; each case under all four tracked/untracked combinations. Oracle: scalar shape [], finite, >= 0, equals the model formula with clipping (rel 1e-7), bit-identical across tracking combinations.",
+		Assumptions: []string{"value classes, not every float64", "batch <= 4, classes <= 3"}})
+	register(&Check{ID: "C14", Fn: checkC14,
+		Rule:        "bounded-exhaustive: Relu, LeakyRelu(m in {nil->0.01, 0, 0.3, 1, -0.5}), Sigmoid, Tanh and Softmax for EVERY dim 0..rank-1 plus the nil config, on every shape of rank 0..4 (thorough 5) over sizes {1,2,3}, with two generic assignments and a rotation of the value classes {-700,-20,-1,-0,0,1e-9,1,20,700}; the value classes exhaustively over inputs of 1..3 elements. Oracle: model formula (rel 1e-9), input shape preserved; Softmax additionally >= 0 and sums to 1 along dim within 1e-12. Non-trivial: more than one element (Softmax: normalised dimension > 1).",
+		Assumptions: []string{"|x| <= 700 for Softmax with normalised width <= 3 (e^x sums stay finite)"}})
+}
+
+func init() {
+	register(&Check{ID: "C17", Fn: checkC17,
+		Rule:        "bounded-exhaustive: weights on every shape of rank 0..4 (thorough 5) over {1,2,3} x learning rate {nil config, 0.01, 0.5, 0, -0.3} x gradient produced by a real back-propagation (w*c with non-uniform c; w^2; two accumulated back-propagations). Oracle: new tensor has w - lr*g element-wise and the same shape; the previous tensor object, its elements and its gradient object/values are unchanged; a second Update without a new gradient, a nil pointer, a pointer to a nil tensor and a tensor without gradient each return an error and replace nothing. Non-trivial: more than one element.",
+		Assumptions: []string{"bounded shapes", "generic values"}})
+	register(&Check{ID: "C18", Fn: checkC18,
+		Rule:        "enumeration of all call sequences (length 1 and 2 over the full alphabet of 9 constructors x parameter sets x shapes; length 3 (thorough 4) over a reduced alphabet) after seeding gonum's global source; conformance oracle: the elements returned by the n-th call are, as a multiset and bit-for-bit, the next prod(shape) draws of a private gonum Uniform/Normal with the EXACT parameters of the statement on an identically seeded source (decides shape, tracked status, support, scale constants, freshness and per-element independence of draws exactly); Full holds the constant. If an implementation stops following that stream the oracle abstains (skipped) only when support, pairwise-distinctness and 4096-sample moments (6 sigma) all hold. Non-trivial: sequences of >= 2 calls or more than one element.",
+		Assumptions: []string{"gonum's Uniform/Normal samplers and x/exp/rand are the trusted base for distribution shape and convergence of moments", "rand.Seed owns the only randomness"}})
+}
